@@ -4,7 +4,7 @@ import json, os, re
 root = os.path.join(os.path.dirname(os.path.dirname(os.path.abspath(__file__))), "seeded")
 print("| Change | What it does (summary written by the agent that made it) | Needs | Caught by (harness: label) |")
 print("|---|---|---|---|")
-for d in sorted(os.listdir(root)):
+for d in sorted(x for x in os.listdir(root) if os.path.isdir(os.path.join(root, x))):
     m = json.load(open(os.path.join(root, d, "meta.json")))
     c = m.get("confirmed", {})
     labs = []
